@@ -74,6 +74,13 @@ type Preempt struct {
 	Choice int   `json:"choice"`
 }
 
+// AtomicPreempt switches at the Nth scheduling point that sits in front of a statement touching
+// sync/atomic or sync.Map (counted over all tasks of the run).
+type AtomicPreempt struct {
+	N      int64 `json:"n"`
+	Choice int   `json:"choice"`
+}
+
 // Switch is one context switch that actually happened.
 type Switch struct {
 	From int   `json:"from"`
@@ -97,6 +104,13 @@ var (
 	aborted  bool
 	// per-site hit counters for the distinct-state measure (solo and sched modes)
 	siteHits []uint32
+	// atomic-site preemption
+	siteIsAtomic []bool
+	atomicSites  int
+	atomicCount  int64
+	atomicPlan   [16]AtomicPreempt
+	atomicPlanN  int
+	atomicIdx    int
 )
 
 // ---------------------------------------------------------------------------------------------
@@ -175,6 +189,15 @@ func Yield(site int32) {
 		panic(BudgetPanic{Steps: b})
 	}
 	gstep++
+	if site >= 0 && int(site) < len(siteIsAtomic) && siteIsAtomic[site] {
+		atomicCount++
+		if atomicIdx < atomicPlanN && atomicCount >= atomicPlan[atomicIdx].N && t.noYield == 0 {
+			c := atomicPlan[atomicIdx].Choice
+			atomicIdx++
+			switchFrom(cur, c, site)
+			return
+		}
+	}
 	if planIdx < len(plan) && gstep >= plan[planIdx].Step && t.noYield == 0 {
 		p := plan[planIdx]
 		planIdx++
@@ -182,11 +205,40 @@ func Yield(site int32) {
 	}
 }
 
+// SchedAtomicPlan sets the atomic-site preemptions of the next run (call after SchedBegin).
+//
+//go:norace
+func SchedAtomicPlan(ps []AtomicPreempt) {
+	atomicPlanN = 0
+	for _, p := range ps {
+		if atomicPlanN < len(atomicPlan) {
+			atomicPlan[atomicPlanN] = p
+			atomicPlanN++
+		}
+	}
+	atomicIdx = 0
+	atomicCount = 0
+}
+
+// AtomicSiteCount is the number of scheduling points in front of atomic operations in this tree.
+func AtomicSiteCount() int { return atomicSites }
+
 // EnableSiteHits allocates the per-site counters (call once, after SiteNames is set).
 //
 //go:norace
 func EnableSiteHits() {
 	siteHits = make([]uint32, len(SiteNames))
+	siteIsAtomic = make([]bool, len(SiteNames))
+	atomicSites = 0
+	for i, n := range SiteNames {
+		for j := 0; j+8 <= len(n); j++ {
+			if n[j:j+8] == ":atomic@" {
+				siteIsAtomic[i] = true
+				atomicSites++
+				break
+			}
+		}
+	}
 }
 
 // SiteHitsSnapshot returns the indices of sites hit since the last reset and resets them.
@@ -281,6 +333,7 @@ func SchedBegin(n int, p []Preempt) {
 	traceN = 0
 	mainWake = make(chan struct{}, 1)
 	aborted = false
+	atomicPlanN, atomicIdx, atomicCount = 0, 0, 0
 	cur = 0
 	mode = modeSched
 }
